@@ -201,6 +201,10 @@ CONTRACTS += _mq.htdigest_hash  # text and encoded bytes of a password denote th
 from contracts import c20_libpass as _lp  # noqa: E402
 
 CONTRACTS += _lp.CONTRACTS[:2]  # libpass PBKDF2 hasher: hash / verify
+from contracts import c12_extra as _c12x  # noqa: E402
+
+# the salt of a libpass PBKDF2 record goes through the dot-variant base64 helpers (text <-> bytes): shared with C12
+CONTRACTS += [c for c in _c12x.CONTRACTS if c.id.startswith(("ab64_decode[libpass", "b64s_decode[libpass"))]
 LEMMAS += _lp.LEMMAS
 BOUNDED = [Bounded("c01", "harness/c01.py", descr="every registered hasher x password/settings grid x near misses", timeout=900)]
 
